@@ -5,8 +5,9 @@
 
 namespace vf {
 
-std::string fileGroupName(long long idx) { return upper(poolName(5000 + idx, 20, false)); }
-std::string fileParamName(long long idx) { return upper(poolName(6000 + idx, 20, false)); }
+// (names whose index ends in 7 carry one or two trailing blanks: other software pads names, and the reader keeps them as they are)
+std::string fileGroupName(long long idx) { std::string n = upper(poolName(5000 + idx, 20, false)); if (idx % 10 == 7) n += (idx % 20 == 7 ? " " : "  "); return n; }
+std::string fileParamName(long long idx) { std::string n = upper(poolName(6000 + idx, 20, false)); if (idx % 10 == 7) n += (idx % 20 == 7 ? " " : "  "); return n; }
 static const float kRates[] = {1.f, 2.f, 10.f, 25.f, 30.f, 50.f, 60.f, 100.f, 120.f, 125.f, 200.f, 240.f, 250.f, 500.f, 1000.f, 12.5f, 62.5f, 1.5f};
 float fileRate(long long idx) { size_t n = sizeof(kRates) / sizeof(kRates[0]); return kRates[static_cast<size_t>(idx < 0 ? -idx : idx) % n]; }
 
@@ -90,6 +91,9 @@ ref::File buildFile(const std::vector<Op> &ops, FileInfo *info) {
     f.h.first = first; f.h.last = nF ? static_cast<unsigned>(first + nF - 1) : ((variant == 2 && (nP || nC)) ? 0 : first);
     f.h.nSub = static_cast<unsigned>(nSub); f.h.rate = floatToBits(prate);
     f.h.maxGap = 10;
+    if (findOp(ops, "fzerosub") && nC == 0 && nF > 0) {   // vendor style: no channel recorded, so the header's samples-per-frame word is 0 although the rates give a ratio
+        f.h.nSub = 0; I.tags.insert("header-subframes-0-without-channels");
+    }
     if (const Op *o = findOp(ops, "frawscale")) {      // arbitrary bit pattern in the scale-factor words; without frames nothing is scaled, so every pattern is well-formed
         if (nF == 0) { f.h.scale = static_cast<uint32_t>(absmod(o->arg(0), 1LL << 32)); I.tags.insert("raw-scale-factor"); }
     }
